@@ -1487,7 +1487,7 @@ def _drop_ln(n):
     return n
 
 
-def _alpha(n):
+def _mirror_alpha(n):
     """Names bound inside the compared region (identifier patterns) are replaced by the number of their first binding, so a
     local renamed on one side only is not a deviation."""
     names = {}
@@ -1596,7 +1596,7 @@ def rule_mirror(trees):
             raise AnchorError("S-MIRROR: the key comparison of %s has no Less/Greater arms" % name)
         pairs.append((name, "Less/Greater arm", arms["Less"]["b"], arms["Greater"]["b"], arms["Greater"]["ln"]))
     for name, what, a, b, ln in pairs:
-        ca, cb = _alpha(_mirror_canon(a, True)), _alpha(_mirror_canon(b, False))
+        ca, cb = _mirror_alpha(_mirror_canon(a, True)), _mirror_alpha(_mirror_canon(b, False))
         d = _mirror_diff(ca, cb, ln)
         if d is None:
             res.ok()
